@@ -201,7 +201,7 @@ func (E *Engine) invariantBinds(fr *Frame, st *State, lp *loop, inv *ssa.Functio
 		}
 	}()
 	for _, p := range inv.Params {
-		v := E.resolveNameAt(fr, st, lp.header, 0, p.Name())
+		v := E.resolveParam(fr, st, lp.header, 0, p, inv.Params)
 		if v == nil {
 			return false
 		}
@@ -238,6 +238,10 @@ func (E *Engine) evalInvariant(fr *Frame, st *State, lp *loop, inv *ssa.Function
 	defer func() { fr.override = saved }()
 	var args []Val
 	for _, p := range inv.Params {
+		if v := E.resolveParam(fr, st, lp.header, 0, p, inv.Params); v != nil {
+			args = append(args, v)
+			continue
+		}
 		args = append(args, E.resolveName(fr, st, lp, p.Name()))
 	}
 	var tenv TEnv
@@ -380,6 +384,45 @@ func (E *Engine) debugLookup(fr *Frame, st *State, lp *loop, name string) Val {
 					return E.value(fr, phi)
 				}
 			}
+		}
+	}
+	return nil
+}
+
+// resolveParam binds a parameter of a ghost predicate (invariant, call-site assertion) to the target's
+// variable of the same name; when there is none - the variable was renamed - to the only variable of the
+// target that has the parameter's type and is not named by another parameter of the predicate. A harmless
+// rename of a local therefore does not detach the predicate.
+func (E *Engine) resolveParam(fr *Frame, st *State, blk *ssa.BasicBlock, upto int, p *ssa.Parameter, siblings []*ssa.Parameter) Val {
+	if v := E.resolveNameAt(fr, st, blk, upto, p.Name()); v != nil {
+		return v
+	}
+	taken := map[string]bool{}
+	for _, q := range siblings {
+		taken[q.Name()] = true
+	}
+	cands := map[string]bool{}
+	for _, b := range fr.fn.Blocks {
+		for _, in := range b.Instrs {
+			if d, ok := in.(*ssa.DebugRef); ok {
+				if o, ok := d.Object().(*types.Var); ok && !taken[o.Name()] && types.Identical(o.Type(), p.Type()) {
+					cands[o.Name()] = true
+				}
+			}
+		}
+	}
+	for _, q := range fr.fn.Params {
+		if !taken[q.Name()] && types.Identical(q.Type(), p.Type()) {
+			cands[q.Name()] = true
+		}
+	}
+	if len(cands) != 1 {
+		return nil
+	}
+	for n := range cands {
+		if v := E.resolveNameAt(fr, st, blk, upto, n); v != nil {
+			E.note("ghost predicate parameter " + p.Name() + " is bound to " + n + ", the only variable of its type in " + shortFn(fr.fn) + " (no variable of that name: renamed?)")
+			return v
 		}
 	}
 	return nil
